@@ -174,6 +174,9 @@ pub struct MCfg {
     pub check_snapshot: bool,
     pub check_fresh_diff: bool,
     pub check_ownership: bool,
+    /// C11's log oracle: every user-op node of the differentiated graph has its closure invoked
+    /// exactly once per pass, with its complete adjoint, after all its consumers
+    pub check_log: bool,
     /// merge states on (reference state, probe); otherwise the history is the state (full tree)
     pub merged: bool,
     /// slots that Update may be applied to (leaf slots)
@@ -212,6 +215,8 @@ pub struct RNode {
     pub template: bool,
     /// a gradient array (values in t)
     pub is_gradient_array: bool,
+    /// 100 + index of the Build action that created the node (the tag its user closure logs)
+    pub tag: usize,
 }
 
 #[derive(Clone, Debug, PartialEq)]
@@ -226,11 +231,18 @@ pub struct RWorld {
     pub nodes: Vec<RNode>,
     pub slots: Vec<Option<RHandle>>,
     pub next_buffer: usize,
+    /// tag of the action being applied (set by the replayer)
+    pub next_tag: usize,
+}
+
+/// what the user-closure log of one pass must contain: (tag, adjoint, operand flags, consumer tags)
+pub struct ExpectedLog {
+    pub entries: Vec<(usize, Vec<Du>, Vec<bool>, Vec<usize>)>,
 }
 
 impl RWorld {
     pub fn new(cfg: &MCfg) -> RWorld {
-        let mut w = RWorld { nodes: Vec::new(), slots: vec![None; cfg.nslots], next_buffer: 0 };
+        let mut w = RWorld { nodes: Vec::new(), slots: vec![None; cfg.nslots], next_buffer: 0, next_tag: 0 };
         for (i, l) in cfg.leaves.iter().enumerate() {
             let b = w.fresh_buffer();
             w.nodes.push(RNode {
@@ -242,6 +254,7 @@ impl RWorld {
                 buffer: b,
                 template: true,
                 is_gradient_array: false,
+                tag: 0,
             });
             w.slots[i] = Some(RHandle { node: i, tracked: l.tracked, keep: l.tracked });
         }
@@ -253,7 +266,7 @@ impl RWorld {
     }
     fn new_plain_node(&mut self, t: T, is_grad: bool) -> usize {
         let b = self.fresh_buffer();
-        self.nodes.push(RNode { t, op: None, edges: vec![], has_graph: false, grad: Grad::None, buffer: b, template: false, is_gradient_array: is_grad });
+        self.nodes.push(RNode { t, op: None, edges: vec![], has_graph: false, grad: Grad::None, buffer: b, template: false, is_gradient_array: is_grad, tag: 0 });
         self.nodes.len() - 1
     }
 
@@ -337,6 +350,48 @@ impl RWorld {
         Ok(out)
     }
 
+    /// the closure invocations a pass from `slot` must produce (user-op nodes only)
+    pub fn expected_log(&self, cfg: &MCfg, slot: usize, seed: u8) -> Result<ExpectedLog, RErr> {
+        let h = self.slots[slot].clone().unwrap();
+        let root = h.node;
+        let n = self.nodes[root].t.len();
+        let seedv: Vec<f64> = match seed {
+            0 => vec![1.0; n],
+            1 => crate::prog::seed_vals(n, 1),
+            2 => vec![0.0; n],
+            _ => match self.seed_handle(slot) {
+                Some(s) => self.nodes[self.slots[s].as_ref().unwrap().node].t.values(),
+                None => return Err(RErr::Unspecified),
+            },
+        };
+        let reached = self.reached(root);
+        let mut entries = Vec::new();
+        for i in 0..=root {
+            if reached[i].is_none() {
+                continue;
+            }
+            let node = &self.nodes[i];
+            let is_user = node.op.map(|o| cfg.ops[o as usize].is_user()).unwrap_or(false);
+            if !node.has_graph || !is_user {
+                continue;
+            }
+            let adj = self.adjoint(cfg, root, &seedv, i)?;
+            let flags: Vec<bool> = node.edges.iter().map(|e| e.tracked).collect();
+            // consumers inside the differentiated graph
+            let mut consumers = Vec::new();
+            for c in (i + 1)..=root {
+                if reached[c].is_some() && self.nodes[c].has_graph && self.nodes[c].edges.iter().any(|e| e.node == i && e.tracked) {
+                    let cu = self.nodes[c].op.map(|o| cfg.ops[o as usize].is_user()).unwrap_or(false);
+                    if cu {
+                        consumers.push(self.nodes[c].tag);
+                    }
+                }
+            }
+            entries.push((node.tag, adj, flags, consumers));
+        }
+        Ok(ExpectedLog { entries })
+    }
+
     /// the slot whose handle is passed (cloned) as the seed for a pass from `root_slot`
     pub fn seed_handle(&self, root_slot: usize) -> Option<usize> {
         let root = self.slots[root_slot].as_ref()?;
@@ -401,6 +456,7 @@ impl RWorld {
                     buffer,
                     template: false,
                     is_gradient_array: false,
+                    tag: self.next_tag,
                 });
                 let id = self.nodes.len() - 1;
                 self.slots[*dst as usize] = Some(RHandle { node: id, tracked: has_graph, keep: has_graph });
@@ -905,11 +961,21 @@ pub fn replay(cfg: &MCfg, hist: &[Act]) -> StepResult {
     // reference first: it decides whether the history is inside the domain
     let mut rw = RWorld::new(cfg);
     let mut seed_slots: Vec<Option<usize>> = Vec::with_capacity(hist.len());
-    for a in hist {
+    let mut expected_log: Option<ExpectedLog> = None;
+    for (k, a) in hist.iter().enumerate() {
         seed_slots.push(match a {
             Act::Backward { slot, seed: 3 } => rw.seed_handle(*slot as usize),
             _ => None,
         });
+        if cfg.check_log && k + 1 == hist.len() {
+            if let Act::Backward { slot, seed } = a {
+                match rw.expected_log(cfg, *slot as usize, *seed) {
+                    Ok(e) => expected_log = Some(e),
+                    Err(_) => return StepResult::OutOfDomain,
+                }
+            }
+        }
+        rw.next_tag = 100 + k;
         if rw.apply(cfg, a).is_err() {
             return StepResult::OutOfDomain;
         }
@@ -917,11 +983,16 @@ pub fn replay(cfg: &MCfg, hist: &[Act]) -> StepResult {
     let res = run_catch(|| {
         let mut iw = IWorld::new(cfg);
         let mut before: Vec<Option<Obs>> = Vec::new();
+        let mut log: Vec<LogEntry> = Vec::new();
         for (k, a) in hist.iter().enumerate() {
             if k + 1 == hist.len() {
                 before = iw.observe();
+                let _ = take_user_log();
             }
             iw.apply(cfg, a, 100 + k, seed_slots[k]);
+            if k + 1 == hist.len() {
+                log = take_user_log();
+            }
         }
         let after = iw.observe();
         let mut probe = Vec::new();
@@ -945,9 +1016,9 @@ pub fn replay(cfg: &MCfg, hist: &[Act]) -> StepResult {
                 }
             }
         }
-        (before, after, probe, own)
+        (before, after, probe, own, log)
     });
-    let (before, after, probe, own) = match res {
+    let (before, after, probe, own, log) = match res {
         Ok(x) => x,
         Err(msg) => {
             let _ = take_user_log();
@@ -955,6 +1026,39 @@ pub fn replay(cfg: &MCfg, hist: &[Act]) -> StepResult {
         }
     };
     let _ = take_user_log();
+    if let Some(exp) = &expected_log {
+        let order: Vec<usize> = log.iter().map(|e| e.tag).collect();
+        for e in &log {
+            if order.iter().filter(|t| **t == e.tag).count() > 1 {
+                return StepResult::Violation { sub: "log".into(), detail: format!("derivative of the node built by action {} invoked more than once in one pass (log order {:?})", e.tag - 100, order) };
+            }
+            if !exp.entries.iter().any(|x| x.0 == e.tag) {
+                return StepResult::Violation { sub: "log".into(), detail: format!("derivative of the node built by action {} invoked although it is not in the differentiated graph (log order {:?})", e.tag - 100, order) };
+            }
+        }
+        for (tag, adj, flags, consumers) in &exp.entries {
+            let pos = match order.iter().position(|t| t == tag) {
+                Some(p) => p,
+                None => {
+                    return StepResult::Violation { sub: "log".into(), detail: format!("derivative of the node built by action {} (in the differentiated graph) was never invoked (log order {:?})", tag - 100, order) };
+                }
+            };
+            let e = &log[pos];
+            if let Err(msg) = cmp_slice(&e.delta, adj, Part::Tangent) {
+                return StepResult::Violation { sub: "log".into(), detail: format!("the node built by action {} received a partial or wrong adjoint: {}; got {}", tag - 100, msg, fmt_vals(&e.delta)) };
+            }
+            if &e.tracked != flags {
+                return StepResult::Violation { sub: "log".into(), detail: format!("the node built by action {}: closure was told operands tracked={:?}, expected {:?}", tag - 100, e.tracked, flags) };
+            }
+            for c in consumers {
+                if let Some(cp) = order.iter().position(|t| t == c) {
+                    if cp > pos {
+                        return StepResult::Violation { sub: "log".into(), detail: format!("the node built by action {} was processed before its consumer built by action {}", tag - 100, c - 100) };
+                    }
+                }
+            }
+        }
+    }
     if cfg.check_ref {
         if let Err((sub, detail)) = compare_obs(cfg, &rw, &after) {
             return StepResult::Violation { sub, detail };
